@@ -12,7 +12,7 @@ def main(tier, t0):
     tasks = [("harness.delivery", "run_obligation", name, dict(kw, findings=fnt)) for name, kw in delivery.obligations(tier)]
     # concrete delivery matrix on the end-to-end witnesses of symbolically explored stage paths (NOT solver-decided: rdflib parsers, codecs and the file system are real)
     from checks import stage_check
-    names = ("opt-literal", "two-datatypes", "ref-vs-iri", "typed-bnode-values", "multi-typed", "bnode-instances", "own-links", "incoming-fresh", "custom-datatype", "iri-and-bnode-untyped")
+    names = ("opt-literal", "two-datatypes", "ref-vs-iri", "typed-bnode-values", "multi-typed", "bnode-instances", "own-links", "incoming-fresh", "custom-datatype", "iri-and-bnode-untyped", "plain-literal-with-at")
     tasks += stage_check.tasks_for(PROP, tier, scenario="delivery", judge="C08e", sizes=lambda t, k: [k + 1] if t == "quick" else [k, k + 1, k + 2],
                                    structure_filter=lambda st: st["name"] in names, cfg={"fixed_flags": {"allow_opt_cardinality": True, "disable_exact_cardinality": False, "discard_useless_constraints_with_positive_closure": True,
                                                         "all_instances_are_compliant_mode": True} if tier == "quick" else {"allow_opt_cardinality": True}})
